@@ -9,6 +9,27 @@ Oracle: start/end journal written by the step commands.
 import sched_common as sc
 
 OWN = {'C10'}
+SIGNALS = [11, 9, 15, 6]        # SEGV, KILL, TERM, ABRT
+
+
+def corpus():
+    """runs first.  Seed C10-2 (minimised): the producer's command is terminated by a signal after it wrote its output
+    file; one dependent by --step, one by --file of that output, one by --glob; neither may start (a command killed by a
+    signal has not finished successfully), and the producer must not be reported done."""
+    cases = []
+    for sig in SIGNALS:
+        for touch in (True, False):
+            spec = sc.mk_spec(4, [(1, 0, 'step'), (2, 0, 'file'), (3, 0, 'glob')])
+            behav = [{'signal': sig, 'sigtouch': touch, 'out': 100 if touch else 0}, {}, {}, {}]
+            cases.append(sc.mk_case(spec, 4, behav, label=f'corpus/C10-2 signal {sig}'))
+    # controls: exit 0 -> all dependents run; exit 3 and exit 139 (a shell reporting a child's SIGSEGV) -> none
+    for rc in (0, 3, 139):
+        spec = sc.mk_spec(4, [(1, 0, 'step'), (2, 0, 'file'), (3, 0, 'glob')])
+        cases.append(sc.mk_case(spec, 4, [{'rc': rc}, {}, {}, {}], label=f'corpus/control exit {rc}'))
+    # an always dependent of a signal-killed step runs; a chain behind it is blocked
+    spec = sc.mk_spec(3, [(1, 0, 'step'), (2, 1, 'step')], whens=['by_dependencies', 'always', 'by_dependencies'])
+    cases.append(sc.mk_case(spec, 2, [{'signal': 9}, {}, {}], label='corpus/always after signal'))
+    return cases
 PROPS = 'XvcPipeline.Props.C10'
 
 
@@ -27,10 +48,13 @@ def variants(rng, n, edges, k, quick):
                 behav.append({'sleep_ms': 0})                       # `true`
             elif r < 0.7:
                 behav.append({'sleep_ms': rng.choice([30, 80, 150])})   # `sleep`
-            elif r < 0.85:
+            elif r < 0.80:
                 behav.append({'rc': 1})                             # `false`
-            else:
+            elif r < 0.90:
                 behav.append({'rc': 1, 'sleep_ms': rng.choice([30, 80])})
+            else:                                                   # terminated by a signal (SEGV, KILL, TERM, ABRT)
+                behav.append({'signal': rng.choice(SIGNALS), 'sigtouch': rng.random() < 0.5, 'sleep_ms': rng.choice([0, 40]),
+                              'out': rng.choice([0, 0, 200])})
         # upstream steps slower than downstream ones make a premature start visible
         if v % 3 == 0:
             for (a, j) in [(e[0], e[1]) for e in edges]:
@@ -139,7 +163,9 @@ def run(chk):
         ('a seeded sample of 60 of the 543 labelled DAGs on 4 steps x 2 variants + all 29 DAGs on <= 3 steps' if quick else
          'ALL 543 labelled DAGs on 4 steps x 3 variants + all 29 DAGs on <= 3 steps x 12 variants + 150 random DAGs on 5..8 steps') +
         '; a variant draws: realisation of every edge (explicit --step | --output-file/--file | --output-file/--glob), when in {by_dependencies, always, never}, '
-        'a private input file dependency (p=.3), per step command true | sleep 30-150 ms | false | sleep+false, pool in {1,2,4,n}, one or two consecutive runs; '
+        'a private input file dependency (p=.3), per step command true | sleep 30-150 ms | false | sleep+false | terminated by a signal (SEGV/KILL/TERM/ABRT, p=.1, '
+        'half of them after writing the output file), pool in {1,2,4,n}, one or two consecutive runs; '
+        'CORPUS first: the C10-2 scenario (producer killed by each of 4 signals with/without output written; dependents by --step, --file, --glob), controls exit 0/3/139, an always dependent; '
         '18 targeted chains s2->s1->s0 (s0 fails or not, when(s1) in all three, all three edge kinds); producers creating outputs that do not exist before the run; '
         f'{len(cycles)} cyclic graphs (self loop, 2- and 3-cycles, cycle plus tail, through explicit and output-file edges). '
         'Each case runs on the hook-free binary (journal oracle) and on the hook build with seeded delays (journal oracle + trace validated by the model driver). '
@@ -147,6 +173,10 @@ def run(chk):
     chk.extra['exhaustive'] = not quick
     chk.extra['exhaustive_part'] = 'graph shapes: all labelled DAGs on <= 4 steps' if not quick else 'all labelled DAGs on <= 3 steps'
     model_cycle_test(ctx, chk, quick)
+    corp = corpus()
+    sc.run_family(ctx, 'corpus/plain', corp, OWN, hook=False)
+    if ctx.xvc_hook:
+        sc.run_family(ctx, 'corpus/hook', [dict(c, sched=f'{chk.seed}:300') for c in corp], OWN, hook=True)
     sc.run_family(ctx, 'dag/plain', cases, OWN, hook=False)
     sc.run_family(ctx, 'cycle/plain', cycles, OWN, hook=False, validate=False)
     if ctx.xvc_hook:
